@@ -17,10 +17,22 @@
     VmSimCall    the simulation for calls: strict (opcode, `CALL_BY_VALUE`, `DYNAMIC_CALL`),
                  `if/&&/||` as jumps, `!`, lazy host calls with thunks (`CALL_BY_NEED`)
     VmSimRefuse  on a well-annotated tree `compile` fails only with `overflow`
+  and, for checked programs, `Yae.Proofs.VmChecked*`:
+    VmCheckedAnn     the tree `check` returns carries what the compiler relies on (`CK`, gives `wa`)
+    VmCheckedNoLazy  `noLazy`, `NoLazyEnv`; evaluation creates no lazy function values
+    VmCheckedKinds   `KA` from `CK`, type soundness (C01) and `DynStrict`
+    VmCheckedFuel    fuel monotonicity of `run`
+    VmCheckedMain    the three hypotheses together; the fuel of `runVm` through C11
+    VmCheckedWitness the D20 witness, a worked example, a deep program
+    VmCheckedRefuse  operand ranges read back by the decoder; exhibited overflows
+    VmCheckedSizes   `compile` on sizes (`sizes`), an exact abstraction
+    VmCheckedSmall   `sizes` does not overflow on small trees
 
-  What is proved here is the classical simulation theorem, for ALL expression forms the
-  compiler accepts (no syntactic fragment is excluded).  The hypotheses, each of which is needed
-  (see the counterexamples below):
+  What is proved here.
+
+  A. The classical simulation theorem (`vm_correct_partial`, `vm_correct`), for ALL expression
+  forms the compiler accepts (no syntactic fragment is excluded).  The hypotheses, each of which
+  is needed (see the counterexamples below):
 
   `WellAnnotated funs e`  (decidable, syntactic; what `types.Check` leaves on the tree):
       list/map/object literals carry their type (`[]` : `list[⊥]`, `[:]` : `map[⊥,⊥]`, an object
@@ -32,27 +44,89 @@
       (the evaluator dispatches on the value, the compiler on the annotation); whenever the callee
       of a dynamic call evaluates, the value is not a LAZY function value (the machine refuses
       `DYNAMIC_CALL` of a lazy function, the evaluator builds thunks).
-  `NotStuck r`  the evaluator's outcome is a value or a documented failure, not an internal fault
-      (`Fail.stuck`: unchecked cast, nil, unreachable).  C01/C02 show accepted programs never
-      end in `stuck` in conforming environments; on a `stuck` outcome the two sides do differ
-      (e.g. an unbound identifier: `OP_LOAD` pushes nil, the evaluator faults).
+  `NotStuck r`  the evaluator's outcome is a value or a failure other than an internal fault
+      (`Fail.stuck`: unchecked cast, nil, unreachable).  A miss of the harness' table of external
+      functions (`stuck "extern-miss:…"`, a device of the model, `C02.Allowed`) is NOT counted as
+      an internal fault: it is raised inside `applyBuiltin`, which both sides call with the same
+      arguments, and is reproduced like any other failure.  On an internal fault the two sides do
+      differ (e.g. an unbound identifier: `OP_LOAD` pushes nil, the evaluator faults).
 
   Conclusion: with `W e + 1` units of fuel or more (an explicit bound computed from the tree),
   `run` from offset 0 on the empty stack returns exactly what `eval` returns: the same value or
   the same failure AND the same final log, i.e. the same host-function calls with the same
   rendered arguments in the same order, and the same prints.
 
-  `refuse` / `refuse_overflow`: on a well-annotated tree `compile` fails only with `overflow`.
+  B. The end-to-end statement for checked programs (`vm_correct_checked`, `runVm_correct_checked`).
+  From  `check Γ c e = .ok (T, e', c')`,  `FunsOK Γ.funs`,  `EnvOK Γ ρ`  (the hypotheses of
+  C01.preservation / C02.progress, in the same form),  `compile Γ.funs e' = .ok (code, pool)`  and
+  ONE extra hypothesis,
 
-  Not proved here: that `vmFuel e` is below the constant `runVm` passes
-  (`1000 * (totalCodeSize + 1)`; `W` also counts the never-compiled callee of a static call), a
-  formal characterisation of WHICH count overflows (only stated: `overflow` is thrown exactly by
-  `emitU16` / `emitU8` / `patch`), and an exhibited overflowing program.  `run` is the model of
-  `switchThreading`; the second dispatch loop is tied to the same model by the harness.
+  `NoLazyFunValues ρ`  (decidable, structural): no variable of `ρ` is bound to a value that
+      contains, at any depth (fields, elements, map values, optional payloads), a function value
+      with the lazy flag,
+
+  (or, weaker and exact, the semantic `DynCalleesStrict ρ e'`: whenever the callee of a dynamic
+  call evaluates, the value is not a lazy function value; it is a part of `KindsAgree`
+  (`kindsAgree_dynCalleesStrict`), and `NoLazyFunValues ρ` implies it for every expression
+  (`noLazy_dynCalleesStrict`); the `_strict` variants of the theorems take it instead)
+  the three hypotheses of A are derived (`checked_wellAnnotated` from the checker,
+  `checked_kindsAgree` from type soundness C01 and from `noLazy_preserved`, `checked_notStuck`
+  from progress C02), so: for every log and every fuel `F ≥ vmFuel e'`,
+  `run F ρ pool code 0 [] log = eval (e'.depth+1) false ρ e' log`; the same for every fuel from
+  the number of emitted bytes on (`vm_correct_checked_size`); and, with no fuel parameter,
+  `runVm ρ code pool = runEval false ρ e'`.
+
+  Why the extra hypothesis: `KindsAgree` asks that the callee of a dynamic call is never a lazy
+  function value.  Type soundness does not give that: a function type does not say whether the
+  function is lazy, and `EnvOK` admits lazy function values (`declOK`).  This is defect D20 of the
+  Go machine (`(o.f)(x)`, `fs[0](x)` with a lazy `f`: `DYNAMIC_CALL` hands evaluated arguments to a
+  function that expects thunks; the model's machine stops with an internal fault there).
+  `checked_needs_noLazy` is a kernel-checked witness: a checked program in a conforming
+  environment, all hypotheses but `NoLazyFunValues` true, on which `run` and `eval` differ.
+  Function values are never created by evaluation (`noLazy_preserved`: literals, built-ins and
+  the host behaviours of the model only pass them on; no typing needed), so a condition on the
+  environment is enough; host functions need no extra condition, since in the model
+  (`HostBeh`) they return an argument, a constant or the value of a forced thunk.
+
+  `runVm`'s fuel: `vmFuel e' ≤ 1000 * (totalCodeSize + 1)` is FALSE in general (`W` doubles at
+  every call argument, the code grows by a byte: `vmFuel_exceeds_runVm_fuel`, thirteen nested
+  negations).  `runVm_correct_checked` goes through C11 instead: compiled code of a checked tree
+  verifies (`VmCV.compile_verified`), verified code does not run out of fuel within
+  `totalCodeSize` steps (`VmVerify.verify_good`), and an outcome other than fuel exhaustion does
+  not depend on the fuel (`run_fuel_mono`, proved here for all of `run`).
+
+  C. Refusals.  `refuse` / `refuse_overflow`: on a well-annotated tree `compile` fails only with
+  `overflow`; `refuse_checked`: so for checked programs.
+  `refuse_exact`: WHEN it does.  `VmChk.sizes funs e` is `compile` run on SIZES only (the code
+  buffer and the constant pool replaced by two numbers; same control structure; the checks are
+  `sU16` / `sU8` / `sConst` / `sPatch`: the pool size at every constant, the member count of a
+  list / map literal, every jump target, each above 65 535, and the argument count of a call
+  above 255).  `compile` fails iff `sizes` fails, with the same error, and on success the sizes
+  of the code and of the pool are the numbers `sizes` returns.  So a refusal is a function of
+  running totals only, never of what the constants or instructions are.
+  `overflows_long_list` / `overflows_many_args` / `refuse_counts`: exhibited overflowing shapes
+  (a list literal of more than 65 535 literal members, which the checker accepts; a dynamic call
+  with more than 255 arguments; any list / map literal or dynamic call with such a count), proved
+  by lemma (not by evaluation).
+
+  `compiles_small`: conversely, a well-annotated tree of at most 4095 nodes in which no call has
+  more than 255 arguments is never refused (the compiler emits at most 16 bytes and 2 constants
+  per node).
+
+  Not proved here: a closed formula for `sizes` (the pool and jump-target conditions are on
+  running totals, per code buffer for the targets: deferred bodies start a fresh buffer), i.e.
+  what happens between 4095 nodes and the exhibited overflows is decided by `sizes`.  `run` is the
+  model of `switchThreading`; the second dispatch loop and the closure compiler / interpreter are
+  tied to `run` / `eval` by the differential harness, not by proof.
 -/
 import Yae.Proofs.VmSimCall
 import Yae.Proofs.VmSimCompile
 import Yae.Proofs.VmSimRefuse
+import Yae.Proofs.VmCheckedMain
+import Yae.Proofs.VmCheckedWitness
+import Yae.Proofs.VmCheckedRefuse
+import Yae.Proofs.VmCheckedSizes
+import Yae.Proofs.VmCheckedSmall
 namespace Yae.C03
 open Yae Yae.Vm Yae.VmSim
 
@@ -115,6 +189,15 @@ theorem vm_correct_exists_fuel {funs : List FunDecl} {e : Expr} {code : Code} {p
   ⟨vmFuel e, fun _ hF => vm_correct_partial hc hw hρ hk log hns hF⟩
 
 example : vmFuel (.bool Pos.unknown true) = 2 := rfl
+
+/-- `NotStuck`: values, documented and host failures, and a miss of the externs table (which the
+machine reproduces, as it calls the same `applyBuiltin`) qualify; internal faults do not -/
+example : NotStuck (.ok (.num 1) : Except Fail Val) ∧
+    NotStuck (.error .indexOutOfRange : Except Fail Val) ∧
+    NotStuck (.error (.hostFail "f") : Except Fail Val) ∧
+    NotStuck (.error (.stuck "extern-miss:regex") : Except Fail Val) ∧
+    ¬ NotStuck (.error (.stuck "cast:fun") : Except Fail Val) := by
+  refine ⟨trivial, trivial, trivial, ?_, ?_⟩ <;> simp
 
 /-- **same host calls, same order, same arguments, same prints**: the final logs coincide -/
 theorem vm_same_events {funs : List FunDecl} {e : Expr} {code : Code} {pool : Pool}
@@ -180,6 +263,359 @@ example : compile [] (.call Pos.unknown 0 (.ident Pos.unknown "f") .nil none "λ
   refine ⟨?_, by decide⟩
   simp only [compile, compileE, Expr.depth]; rfl
 
+/-! ## checked programs: the hypotheses of the simulation theorem, derived -/
+
+/-- **No lazy function values in the environment** (decidable): no variable is bound to a value
+that contains, at any depth (object fields, list elements, map values, optional payloads), a
+function value with the lazy flag.  Lazy functions can still be registered in the function table
+and called by name; what is excluded is a lazy function as a first-class VALUE. -/
+def NoLazyFunValues (ρ : REnv) : Prop := VmChk.NoLazyEnv ρ
+
+instance (ρ : REnv) : Decidable (NoLazyFunValues ρ) := by
+  unfold NoLazyFunValues; infer_instance
+
+/-- spelled out: every value a variable is bound to satisfies `VmChk.noLazy` -/
+theorem noLazyFunValues_iff {ρ : REnv} :
+    NoLazyFunValues ρ ↔ ∀ p ∈ ρ.vars, VmChk.noLazy p.2 = true := by
+  unfold NoLazyFunValues VmChk.NoLazyEnv
+  exact List.all_eq_true
+
+example : VmChk.noLazy (.obj (.obj (.cons "f" (.fn "f" .nil .num) .nil))
+      (.cons (.fn (.fn "f" .nil .num) (.host "f" (.constNum 1)) false) .nil)) = true ∧
+    VmChk.noLazy (.list (.list (.fn "g" .nil .num))
+      (.cons (.fn (.fn "g" .nil .num) (.host "g" (.force [])) true) .nil)) = false := by decide
+
+/-- **Evaluation creates no lazy function values**: in an environment that holds none, whatever
+the evaluator returns (any expression, checked or not, any fuel, with or without debug recording,
+from any log) contains none.  Built-ins and host functions only pass function values on. -/
+theorem noLazy_preserved {ρ : REnv} (hρ : NoLazyFunValues ρ) {fuel : Nat} {dbg : Bool} {e : Expr}
+    {log log' : List Event} {v : Val} (h : eval fuel dbg ρ e log = (.ok v, log')) :
+    VmChk.noLazy v = true :=
+  VmChk.eval_noLazy hρ h
+
+example : NoLazyFunValues Sound.Example.ρ2 ∧
+    (eval 5 false Sound.Example.ρ2 Sound.Example.idProg' []).1 = .ok (.num 7) :=
+  ⟨by decide, Sound.Example.idEval⟩
+
+/-- the tree the checker returns is well annotated -/
+theorem checked_wellAnnotated {Γ : TEnv} (hf : Sound.FunsOK Γ.funs) (hv : Sound.VarsOK Γ)
+    {c : Nat} {e : Expr} {T : Ty} {e' : Expr} {c' : Nat}
+    (hc : check Γ c e = .ok (T, e', c')) : WellAnnotated Γ.funs e' :=
+  VmChk.checked_wa hf hv hc
+
+/-- **The exact extra hypothesis** (semantic): in the positions the compiler visits, whenever the
+callee of a dynamically dispatched call evaluates, the value is not a function value with the
+lazy flag.  It is the part of `KindsAgree` that neither the checker nor type soundness gives. -/
+def DynCalleesStrict (ρ : REnv) (e : Expr) : Prop := VmChk.DynStrict ρ e
+
+/-- it is necessary: it is a part of `KindsAgree` … -/
+theorem kindsAgree_dynCalleesStrict {ρ : REnv} {e : Expr} (h : KindsAgree ρ e) :
+    DynCalleesStrict ρ e :=
+  VmChk.ka_dynStrict e h
+
+/-- … and it holds for EVERY expression when the environment holds no lazy function value -/
+theorem noLazy_dynCalleesStrict {ρ : REnv} (hnl : NoLazyFunValues ρ) (e : Expr) :
+    DynCalleesStrict ρ e :=
+  VmChk.noLazy_dynStrict hnl e
+
+example : DynCalleesStrict Sound.Example.ρ2 Sound.Example.idProg' :=
+  noLazy_dynCalleesStrict (by decide) _
+
+/-- in a conforming environment, given `DynCalleesStrict`, the kinds agree on the tree the checker
+returns: the operand of a subscript has the annotated kind by type soundness (C01) -/
+theorem checked_kindsAgree_strict {Γ : TEnv} {ρ : REnv} (hf : Sound.FunsOK Γ.funs)
+    (henv : Sound.EnvOK Γ ρ) {c : Nat} {e : Expr} {T : Ty} {e' : Expr} {c' : Nat}
+    (hc : check Γ c e = .ok (T, e', c')) (hd : DynCalleesStrict ρ e') : KindsAgree ρ e' :=
+  VmChk.checked_ka hf henv hd hc
+
+/-- in a conforming environment without lazy function values, the kinds agree on the tree the
+checker returns: subscript operands by type soundness (C01), callees by `noLazy_preserved` -/
+theorem checked_kindsAgree {Γ : TEnv} {ρ : REnv} (hf : Sound.FunsOK Γ.funs) (henv : Sound.EnvOK Γ ρ)
+    (hnl : NoLazyFunValues ρ) {c : Nat} {e : Expr} {T : Ty} {e' : Expr} {c' : Nat}
+    (hc : check Γ c e = .ok (T, e', c')) : KindsAgree ρ e' :=
+  checked_kindsAgree_strict hf henv hc (noLazy_dynCalleesStrict hnl e')
+
+/-- progress (C02): the evaluation of the tree the checker returns, with more fuel than its
+depth, never ends in an internal fault -/
+theorem checked_notStuck {Γ : TEnv} {ρ : REnv} (hf : Sound.FunsOK Γ.funs) (henv : Sound.EnvOK Γ ρ)
+    {c : Nat} {e : Expr} {T : Ty} {e' : Expr} {c' : Nat}
+    (hc : check Γ c e = .ok (T, e', c')) (log : List Event) :
+    NotStuck (eval (e'.depth + 1) false ρ e' log).1 :=
+  VmChk.checked_notStuck hf henv hc (Nat.lt_succ_self _) false log
+
+/-- non-vacuity of the three: `[o.a, 2][1] + 2` (a subscript, a member access, a statically
+dispatched call) in the environment of `Sound.Example` (all built-ins registered; `o` bound
+to an object value whose own type lists the fields in another order) -/
+example : Sound.FunsOK Sound.Example.Γ.funs ∧ Sound.EnvOK Sound.Example.Γ Sound.Example.ρ ∧
+    NoLazyFunValues Sound.Example.ρ ∧
+    check Sound.Example.Γ 0 VmChk.Ex.prog = .ok (.num, VmChk.Ex.prog', 0) ∧
+    ∃ code pool, compile Sound.Example.Γ.funs VmChk.Ex.prog' = .ok (code, pool) :=
+  ⟨Sound.Example.funsOK, Sound.Example.envOK, VmChk.Ex.noLazy, VmChk.Ex.checked,
+    VmChk.Ex.compiled⟩
+
+/-! ## C03 for checked programs -/
+
+/-- the same under the exact (weakest) extra hypothesis `DynCalleesStrict ρ e'` -/
+theorem vm_correct_checked_strict {Γ : TEnv} {ρ : REnv} (hf : Sound.FunsOK Γ.funs)
+    (henv : Sound.EnvOK Γ ρ) {c : Nat} {e : Expr} {T : Ty} {e' : Expr} {c' : Nat}
+    (hc : check Γ c e = .ok (T, e', c')) (hd : DynCalleesStrict ρ e') {code : Code} {pool : Pool}
+    (hcomp : compile Γ.funs e' = .ok (code, pool)) :
+    ∀ log F, vmFuel e' ≤ F → run F ρ pool code 0 [] log = eval (e'.depth + 1) false ρ e' log :=
+  vm_correct hcomp (checked_wellAnnotated hf henv.tys hc) henv.funs
+    (checked_kindsAgree_strict hf henv hc hd) (checked_notStuck hf henv hc)
+
+/-- **C03, end to end (VM side).**  An accepted program (`check` succeeds and returns the
+annotated tree `e'`), an environment that passed the environment check and holds no lazy
+function VALUE, and the bytecode the compiler produced for `e'`: from every log, with any fuel
+from `vmFuel e'` on, the machine returns exactly what the reference evaluator returns: the same
+value or the same (documented, host or externs-table) failure, and the same final log, i.e. the
+same host calls with the same arguments in the same order and the same prints. -/
+theorem vm_correct_checked {Γ : TEnv} {ρ : REnv} (hf : Sound.FunsOK Γ.funs) (henv : Sound.EnvOK Γ ρ)
+    (hnl : NoLazyFunValues ρ) {c : Nat} {e : Expr} {T : Ty} {e' : Expr} {c' : Nat}
+    (hc : check Γ c e = .ok (T, e', c')) {code : Code} {pool : Pool}
+    (hcomp : compile Γ.funs e' = .ok (code, pool)) :
+    ∀ log F, vmFuel e' ≤ F → run F ρ pool code 0 [] log = eval (e'.depth + 1) false ρ e' log :=
+  vm_correct_checked_strict hf henv hc (noLazy_dynCalleesStrict hnl e') hcomp
+
+/-- the hypotheses hold together, and so does the conclusion, for `[o.a, 2][1] + 2` -/
+example : ∃ code pool, compile Sound.Example.Γ.funs VmChk.Ex.prog' = .ok (code, pool) ∧
+    ∀ log F, vmFuel VmChk.Ex.prog' ≤ F → run F Sound.Example.ρ pool code 0 [] log =
+      eval (VmChk.Ex.prog'.depth + 1) false Sound.Example.ρ VmChk.Ex.prog' log := by
+  obtain ⟨code, pool, h⟩ := VmChk.Ex.compiled
+  exact ⟨code, pool, h, vm_correct_checked Sound.Example.funsOK Sound.Example.envOK
+    VmChk.Ex.noLazy VmChk.Ex.checked h⟩
+
+/-- … and with it what type soundness says about the evaluator carries over to the machine: a
+value the machine returns has the inferred type (C01), a failure it stops with is an allowed one
+(C02) -/
+theorem vm_sound_checked {Γ : TEnv} {ρ : REnv} (hf : Sound.FunsOK Γ.funs) (henv : Sound.EnvOK Γ ρ)
+    (hnl : NoLazyFunValues ρ) {c : Nat} {e : Expr} {T : Ty} {e' : Expr} {c' : Nat}
+    (hc : check Γ c e = .ok (T, e', c')) {code : Code} {pool : Pool}
+    (hcomp : compile Γ.funs e' = .ok (code, pool)) (log : List Event) {F : Nat}
+    (hF : vmFuel e' ≤ F) :
+    (∃ v log', run F ρ pool code 0 [] log = (.ok v, log') ∧ Sound.HasTy v T) ∨
+    (∃ f log', run F ρ pool code 0 [] log = (.error f, log') ∧ Sound.Allowed f) := by
+  rw [vm_correct_checked hf henv hnl hc hcomp log F hF]
+  have hA := (Sound.check_ann hf henv.tys e c T e' c' hc).1
+  have h := Sound.evalOK (dbg := false) hf henv (e'.depth + 1) e' T hA log
+  rcases hr : eval (e'.depth + 1) false ρ e' log with ⟨r, l⟩
+  rw [hr] at h
+  cases r with
+  | ok v => exact .inl ⟨v, l, rfl, h⟩
+  | error f =>
+    rcases h with h | ⟨_, h⟩
+    · exact .inr ⟨f, l, rfl, h⟩
+    · exact absurd (Nat.lt_succ_self _) h
+
+/-! ### the fuel `runVm` passes -/
+
+/-- **Fuel monotonicity of the machine**: an outcome other than fuel exhaustion does not depend
+on the fuel (any code, any pool, any start offset, stack and log: no hypothesis) -/
+theorem run_fuel_mono {ρ : REnv} {pool : Pool} {code : Code} {pc : Nat} {st : List Slot}
+    {log : List Event} {F F' : Nat} (hle : F ≤ F')
+    (h : (run F ρ pool code pc st log).1 ≠ .error .fuel) :
+    run F' ρ pool code pc st log = run F ρ pool code pc st log :=
+  VmChk.run_fuel_mono hle h
+
+example : (run 2 { vars := [], funs := [] } #[.name "x"]
+    #[UInt8.ofNat Op.LOAD.code, 0, 0, UInt8.ofNat Op.RETURN.code] 0 [] []).1 ≠ .error .fuel := by
+  rw [run_load (i := 0) (x := "x") (nx := 3) rfl rfl, run_return (nx := 4) rfl]
+  simp
+
+/-- `vmFuel e' ≤ 1000 * (totalCodeSize code pool + 1)` is false in general: thirteen nested
+negations `!!…!true`, a checked program, compile to 17 bytes, and `vmFuel` is 49 148 -/
+theorem vmFuel_exceeds_runVm_fuel :
+    check Sound.Example.Γ 0 (VmChk.Deep.nots 13) = .ok (.bool, VmChk.Deep.nots' 13, 0) ∧
+    compile Sound.Example.Γ.funs (VmChk.Deep.nots' 13) =
+      .ok (VmChk.Deep.code13, VmChk.Deep.pool13) ∧
+    1000 * (totalCodeSize VmChk.Deep.code13 VmChk.Deep.pool13 + 1) < vmFuel (VmChk.Deep.nots' 13) :=
+  ⟨VmChk.Deep.checked, VmChk.Deep.compiled, VmChk.Deep.exceeds⟩
+
+/-- the machine agrees with the evaluator already from the number of emitted bytes on (main code
+plus deferred bodies; every instruction is at least one byte): C11's step bound for verified code
+and fuel monotonicity -/
+theorem vm_correct_checked_size_strict {Γ : TEnv} {ρ : REnv} (hf : Sound.FunsOK Γ.funs)
+    (henv : Sound.EnvOK Γ ρ) {c : Nat} {e : Expr} {T : Ty} {e' : Expr} {c' : Nat}
+    (hc : check Γ c e = .ok (T, e', c')) (hd : DynCalleesStrict ρ e') {code : Code} {pool : Pool}
+    (hcomp : compile Γ.funs e' = .ok (code, pool)) :
+    ∀ log F, totalCodeSize code pool ≤ F →
+      run F ρ pool code 0 [] log = eval (e'.depth + 1) false ρ e' log :=
+  fun log _ hF => VmChk.checked_run_eq_size hf henv hd hc hcomp log hF
+
+/-- the same from `NoLazyFunValues ρ` -/
+theorem vm_correct_checked_size {Γ : TEnv} {ρ : REnv} (hf : Sound.FunsOK Γ.funs)
+    (henv : Sound.EnvOK Γ ρ)
+    (hnl : NoLazyFunValues ρ) {c : Nat} {e : Expr} {T : Ty} {e' : Expr} {c' : Nat}
+    (hc : check Γ c e = .ok (T, e', c')) {code : Code} {pool : Pool}
+    (hcomp : compile Γ.funs e' = .ok (code, pool)) :
+    ∀ log F, totalCodeSize code pool ≤ F →
+      run F ρ pool code 0 [] log = eval (e'.depth + 1) false ρ e' log :=
+  vm_correct_checked_size_strict hf henv hc (noLazy_dynCalleesStrict hnl e') hcomp
+
+/-- `runVm` = `runEval` under the exact extra hypothesis -/
+theorem runVm_correct_checked_strict {Γ : TEnv} {ρ : REnv} (hf : Sound.FunsOK Γ.funs)
+    (henv : Sound.EnvOK Γ ρ) {c : Nat} {e : Expr} {T : Ty} {e' : Expr} {c' : Nat}
+    (hc : check Γ c e = .ok (T, e', c')) (hd : DynCalleesStrict ρ e') {code : Code} {pool : Pool}
+    (hcomp : compile Γ.funs e' = .ok (code, pool)) :
+    runVm ρ code pool = runEval false ρ e' := by
+  unfold runVm runEval
+  rw [vm_correct_checked_size_strict hf henv hc hd hcomp []
+    (1000 * (totalCodeSize code pool + 1)) (by omega)]
+
+/-- **C03 for the entry points** (no fuel parameter): `runVm`, which passes
+`1000 * (totalCodeSize + 1)` units of fuel, returns on the compiled program what `runEval`
+returns on the checked tree: the same result and the same events, oldest first. -/
+theorem runVm_correct_checked {Γ : TEnv} {ρ : REnv} (hf : Sound.FunsOK Γ.funs)
+    (henv : Sound.EnvOK Γ ρ)
+    (hnl : NoLazyFunValues ρ) {c : Nat} {e : Expr} {T : Ty} {e' : Expr} {c' : Nat}
+    (hc : check Γ c e = .ok (T, e', c')) {code : Code} {pool : Pool}
+    (hcomp : compile Γ.funs e' = .ok (code, pool)) :
+    runVm ρ code pool = runEval false ρ e' :=
+  runVm_correct_checked_strict hf henv hc (noLazy_dynCalleesStrict hnl e') hcomp
+
+/-- the deep program, whose `vmFuel` exceeds `runVm`'s fuel, is covered as well -/
+example : runVm Sound.Example.ρ VmChk.Deep.code13 VmChk.Deep.pool13 =
+    runEval false Sound.Example.ρ (VmChk.Deep.nots' 13) :=
+  runVm_correct_checked Sound.Example.funsOK Sound.Example.envOK VmChk.Ex.noLazy
+    VmChk.Deep.checked VmChk.Deep.compiled
+
+/-! ### `NoLazyFunValues` is needed: defect D20 -/
+
+/-- **Witness.**  `h.f(1)` where the environment binds `h` to an object whose field `f` is a
+LAZY host function value of type `(num) → num` (it forces its argument).  The program is
+accepted, the environment passes the environment check, the tree is well annotated, the compiler
+produces `LOAD h; OBJ_LOAD f; CONST 1; DYNAMIC_CALL 1; RETURN`; the evaluator calls the function
+with a thunk and returns `1` after logging the host call, the machine stops at `DYNAMIC_CALL`
+with every fuel (in Go it goes on and passes the evaluated argument where a thunk is expected).
+So `vm_correct_checked` without `NoLazyFunValues` is false. -/
+theorem checked_needs_noLazy :
+    Sound.FunsOK VmChk.D20.Γ.funs ∧ Sound.EnvOK VmChk.D20.Γ VmChk.D20.ρ ∧
+    check VmChk.D20.Γ 0 VmChk.D20.prog = .ok (.num, VmChk.D20.prog', 2) ∧
+    compile VmChk.D20.Γ.funs VmChk.D20.prog' = .ok (VmChk.D20.code, VmChk.D20.pool) ∧
+    WellAnnotated VmChk.D20.Γ.funs VmChk.D20.prog' ∧
+    ¬ NoLazyFunValues VmChk.D20.ρ ∧ ¬ DynCalleesStrict VmChk.D20.ρ VmChk.D20.prog' ∧
+    eval (VmChk.D20.prog'.depth + 1) false VmChk.D20.ρ VmChk.D20.prog' [] =
+      (.ok (.num 1), [.call "lz" []]) ∧
+    ∀ F, vmFuel VmChk.D20.prog' ≤ F →
+      run F VmChk.D20.ρ VmChk.D20.pool VmChk.D20.code 0 [] [] =
+        (.error (.stuck "dynamic call of a lazy function"), []) :=
+  ⟨VmChk.D20.funsOK, VmChk.D20.envOK, VmChk.D20.checked, VmChk.D20.compiled, VmChk.D20.annotated,
+    VmChk.D20.notNoLazy, VmChk.D20.notDynStrict, VmChk.D20.evaluated,
+    fun F hF => VmChk.D20.ran F (by
+      have : 5 ≤ vmFuel VmChk.D20.prog' := by decide
+      omega)⟩
+
+/-! ### refusals of checked programs -/
+
+/-- a checked program is refused only for an encoding overflow -/
+theorem refuse_checked {Γ : TEnv} (hf : Sound.FunsOK Γ.funs) (hv : Sound.VarsOK Γ)
+    {c : Nat} {e : Expr} {T : Ty} {e' : Expr} {c' : Nat}
+    (hc : check Γ c e = .ok (T, e', c')) {err : CErr} (h : compile Γ.funs e' = .error err) :
+    err = .overflow :=
+  refuse_overflow (checked_wellAnnotated hf hv hc) h
+
+/-- **When the compiler refuses.**  `VmChk.sizes` is `compile` with the two buffers replaced by
+their sizes: `compile` fails exactly when `sizes` fails, with the same error; when it succeeds,
+the code and the pool have the sizes `sizes` computes (and conversely).  The checks in `sizes`
+are: 65 536 constants already allocated when one more is needed (`sConst`); a list / map literal
+with more than 65 535 members, a jump target beyond offset 65 535 (`sU16`, `sPatch`); a call
+with more than 255 arguments (`sU8`). -/
+theorem refuse_exact (funs : List FunDecl) (e : Expr) :
+    (∀ err, compile funs e = .error err ↔ VmChk.sizes funs e = .error err) ∧
+    (∀ code pool, compile funs e = .ok (code, pool) →
+      VmChk.sizes funs e = .ok (code.size, pool.size)) ∧
+    (∀ r, VmChk.sizes funs e = .ok r →
+      ∃ code pool, compile funs e = .ok (code, pool) ∧ r = (code.size, pool.size)) := by
+  have h := VmChk.compile_sizes funs e
+  refine ⟨fun err => ⟨fun hc => ?_, fun hs => ?_⟩, fun code pool hc => ?_, fun r hs => ?_⟩
+  · rw [hc] at h; exact h.symm
+  · rw [hs] at h
+    cases hc : compile funs e with
+    | ok r => rw [hc] at h; cases h
+    | error err' => rw [hc] at h; cases h; rfl
+  · rw [hc] at h; exact h.symm
+  · rw [hs] at h
+    cases hc : compile funs e with
+    | ok r' => rw [hc] at h; obtain ⟨c, p⟩ := r'; cases h; exact ⟨c, p, rfl, rfl⟩
+    | error err' => rw [hc] at h; cases h
+
+/-- for checked programs: refused iff `sizes` overflows; compiled iff `sizes` succeeds -/
+theorem refuse_exact_checked {Γ : TEnv} (hf : Sound.FunsOK Γ.funs) (hv : Sound.VarsOK Γ)
+    {c : Nat} {e : Expr} {T : Ty} {e' : Expr} {c' : Nat}
+    (hc : check Γ c e = .ok (T, e', c')) :
+    ((∃ err, compile Γ.funs e' = .error err) ↔ VmChk.sizes Γ.funs e' = .error .overflow) ∧
+    ((∃ code pool, compile Γ.funs e' = .ok (code, pool)) ↔ ∃ r, VmChk.sizes Γ.funs e' = .ok r) := by
+  obtain ⟨h1, h2, h3⟩ := refuse_exact Γ.funs e'
+  refine ⟨⟨fun ⟨err, h⟩ => ?_, fun h => ⟨_, (h1 _).2 h⟩⟩,
+    ⟨fun ⟨code, pool, h⟩ => ⟨_, h2 _ _ h⟩, fun ⟨r, h⟩ => ?_⟩⟩
+  · have := refuse_checked hf hv hc h
+    subst this
+    exact (h1 _).1 h
+  · obtain ⟨code, pool, h, _⟩ := h3 r h
+    exact ⟨code, pool, h⟩
+
+/-- non-vacuity: `h.f(1)` compiles to 12 bytes and 3 constants, `[o.a, 2][1] + 2` to 23 and 6 -/
+example : VmChk.sizes VmChk.D20.Γ.funs VmChk.D20.prog' = .ok (12, 3) :=
+  (refuse_exact _ _).2.1 _ _ VmChk.D20.compiled
+
+example : ∃ r, VmChk.sizes Sound.Example.Γ.funs VmChk.Ex.prog' = .ok r :=
+  ((refuse_exact_checked Sound.Example.funsOK Sound.Example.envOK.tys VmChk.Ex.checked).2).1
+    VmChk.Ex.compiled
+
+/-- **Small programs are never refused.**  A well-annotated tree with at most 4095 nodes in
+which no call has more than 255 arguments is compiled (16 bytes of code and 2 constants per node
+bound what the compiler emits; `VmChk.nodes` counts the nodes, `VmChk.argsOK` checks the
+argument counts). -/
+theorem compiles_small {funs : List FunDecl} {e : Expr} (hw : WellAnnotated funs e)
+    (ha : VmChk.argsOK e = true) (hn : VmChk.nodes e ≤ 4095) :
+    ∃ code pool, compile funs e = .ok (code, pool) := by
+  cases hc : compile funs e with
+  | ok r => exact ⟨r.1, r.2, rfl⟩
+  | error err =>
+    have := refuse_overflow hw hc
+    subst this
+    exact absurd ((refuse_exact funs e).1 _ |>.1 hc) (VmChk.sizes_small funs ha hn)
+
+/-- … in particular checked programs of that size -/
+theorem compiles_small_checked {Γ : TEnv} (hf : Sound.FunsOK Γ.funs) (hv : Sound.VarsOK Γ)
+    {c : Nat} {e : Expr} {T : Ty} {e' : Expr} {c' : Nat}
+    (hc : check Γ c e = .ok (T, e', c')) (ha : VmChk.argsOK e' = true)
+    (hn : VmChk.nodes e' ≤ 4095) : ∃ code pool, compile Γ.funs e' = .ok (code, pool) :=
+  compiles_small (checked_wellAnnotated hf hv hc) ha hn
+
+example : VmChk.argsOK VmChk.Ex.prog' = true ∧ VmChk.nodes VmChk.Ex.prog' = 9 := by decide
+
+/-- **An exhibited overflowing program**: the list literal `[v, v, …, v]` with more than 65 535
+number literals is accepted by the checker (in every environment, with type `list[num]`) and
+refused by the compiler with `overflow`.  (Proved by lemma: a compiled list literal's member
+count is read back from a 16-bit operand.) -/
+theorem overflows_long_list (Γ : TEnv) (p q : Pos) (v : Float) (c : Nat) {n : Nat}
+    (hn : 65535 < n + 1) :
+    check Γ c (.list p (VmChk.lits (.num q v) (n+1)) none) =
+      .ok (.list .num, .list p (VmChk.lits (.num q v) (n+1)) (some (.list .num)), c) ∧
+    compile Γ.funs (.list p (VmChk.lits (.num q v) (n+1)) (some (.list .num))) = .error .overflow :=
+  ⟨VmChk.check_lits Γ p q v c none n, VmChk.lits_overflow Γ.funs p q v (.list .num) hn⟩
+
+/-- no list literal of more than 65 535 members, no map literal of more than 65 535 entries and no
+dynamic call of more than 255 arguments is ever compiled, whatever the members are -/
+theorem refuse_counts {funs : List FunDecl} {code : Code} {pool : Pool} :
+    (∀ p es ty, 65535 < ExprList.length es → compile funs (.list p es ty) ≠ .ok (code, pool)) ∧
+    (∀ p ps ty, 65535 < PairList.length ps → compile funs (.map p ps ty) ≠ .ok (code, pool)) ∧
+    (∀ p col callee args cty index, 255 < ExprList.length args →
+      compile funs (.call p col callee args cty "" index) ≠ .ok (code, pool)) :=
+  ⟨fun _ _ _ h => VmChk.compile_long_list h code pool,
+    fun _ _ _ h => VmChk.compile_long_map h code pool,
+    fun _ _ _ _ _ _ h => VmChk.compile_many_args h code pool⟩
+
+/-- a dynamic call with more than 255 literal arguments on a well-annotated callee: `overflow` -/
+theorem overflows_many_args (funs : List FunDecl) (p q : Pos) (col : Int) (v : Float)
+    (callee : Expr) (cty : Option Ty) (index : Int) (hcallee : WellAnnotated funs callee)
+    {n : Nat} (hn : 255 < n) :
+    compile funs (.call p col callee (VmChk.lits (.num q v) n) cty "" index) = .error .overflow :=
+  VmChk.args_overflow funs p q col v callee cty index hcallee hn
+
+example : WellAnnotated [] (.ident Pos.unknown "f") ∧ 255 < 256 := ⟨by decide, by decide⟩
+
 #print axioms vm_correct_partial
 #print axioms refuse_overflow
 #print axioms refuse
@@ -187,5 +623,30 @@ example : compile [] (.call Pos.unknown 0 (.ident Pos.unknown "f") .nil none "λ
 #print axioms vm_correct_exists_fuel
 #print axioms vm_same_events
 #print axioms unbound_identifier_differs
+#print axioms noLazy_preserved
+#print axioms checked_wellAnnotated
+#print axioms kindsAgree_dynCalleesStrict
+#print axioms noLazy_dynCalleesStrict
+#print axioms checked_kindsAgree_strict
+#print axioms checked_kindsAgree
+#print axioms checked_notStuck
+#print axioms vm_correct_checked_strict
+#print axioms vm_correct_checked
+#print axioms vm_sound_checked
+#print axioms run_fuel_mono
+#print axioms vmFuel_exceeds_runVm_fuel
+#print axioms vm_correct_checked_size_strict
+#print axioms vm_correct_checked_size
+#print axioms runVm_correct_checked_strict
+#print axioms runVm_correct_checked
+#print axioms checked_needs_noLazy
+#print axioms refuse_checked
+#print axioms refuse_exact
+#print axioms refuse_exact_checked
+#print axioms compiles_small
+#print axioms compiles_small_checked
+#print axioms overflows_long_list
+#print axioms refuse_counts
+#print axioms overflows_many_args
 
 end Yae.C03
